@@ -6,6 +6,7 @@ import (
 	lifecycle "github.com/boz/go-lifecycle"
 	"github.com/ovrclk/akash/manifest"
 	"github.com/ovrclk/akash/provider/cluster/util"
+	"github.com/ovrclk/akash/util/verifhook"
 	"github.com/prometheus/client_golang/prometheus"
 	"github.com/prometheus/client_golang/prometheus/promauto"
 	"time"
@@ -119,6 +120,7 @@ func (dm *deploymentManager) run() {
 	var shutdownErr error
 loop:
 	for {
+		verifhook.Emit("cluster.dm.loop", dm, runch != nil, reserveHostnamesCh != nil)
 		select {
 		case err := <-reserveHostnamesCh:
 			reserveHostnamesCh = nil
